@@ -52,7 +52,7 @@ fn src_searches_mut<'a>(src: &'a mut IterSrc, out: &mut Vec<&'a mut usize>, hays
 }
 
 /// Mutable access to every searcher index and haystack reference of an operation.
-fn op_refs_mut<'a>(op: &'a mut Op, out: &mut Vec<&'a mut usize>, hays: &mut Vec<&'a mut Hay>) {
+pub fn op_refs_mut<'a>(op: &'a mut Op, out: &mut Vec<&'a mut usize>, hays: &mut Vec<&'a mut Hay>) {
     match op {
         Op::Find(q) | Op::FindInfallible(q) | Op::IsMatch(q) => {
             out.push(&mut q.s);
